@@ -150,6 +150,9 @@ func (s *server) dbLoad() (err error) {
 
 // dbStore stores DHCP leases.
 func (s *server) dbStore() (err error) {
+	s.dbStoreMu.Lock()
+	defer s.dbStoreMu.Unlock()
+
 	// Use an empty slice here as opposed to nil so that it doesn't write
 	// "null" into the database file if leases are empty.
 	leases := []*dbLease{}
